@@ -137,7 +137,7 @@ enum Expect {
 const SERVING_WORDS: &[&str] = &["", " servings", " cups worth", " big", " small ones", "-ish"];
 const TAG_POOL: &[&str] = &["vegan", "quick", "", "2022", "gluten free", "vegan", " spicy ", "a", "\u{a0}soup\u{a0}", "\u{3000}", "\u{2003}tea", " soup\u{a0}", "\u{2009}"];
 const BAD_TIMES: &[&str] = &["soon", "1hour30min", "5 parsecs", "-5", "inf", "nan", "1e20", "4294967296", "99999999h", "1h4294967295m", "71582789h", "1 h 4294967295 min", "h", "10 min 5", "1.5.2 h", "1h30", "٣ h", "1h -30min", "+5 min", "2 hours -30 min", "-1 min 2 min", "1 h +5 min", "1e2 min", "0x10 min", "   ", "\t", "-0.4", "-0.49 min", "-0.2h"];
-const BAD_TIME_YAML: &[&str] = &["{prep: 10, cook: until golden}", "{prep: 10, cook: 4294967296}", "{prep: soon}", "{cook: [20]}", "{prep: 10, cook: 2 parsecs}", "[10, 20]", "{prep: -5, cook: 1}", "{prep: 1h, cook: {a: 1}}", "{}", "{foo: 1}", "{preparation: 10}", "12.5", "7.5", "1e3", "{prep: 2.5, cook: 10}", "0.4", "-1", "2.0"];
+const BAD_TIME_YAML: &[&str] = &["{prep: 10, cook: until golden}", "{prep: 10, cook: 4294967296}", "{prep: soon}", "{cook: [20]}", "{prep: 10, cook: 2 parsecs}", "[10, 20]", "{prep: -5, cook: 1}", "{prep: 1h, cook: {a: 1}}", "{}", "{foo: 1}", "{preparation: 10}", "12.5", "7.5", "{prep: 2.5, cook: 10}", "0.4", "-1", "-7", "{cook: 0.5}"];
 const BAD_SERVINGS: &[&str] = &["many", "2|2", "1|2|1", "x2", "-3", "4294967296", "|", "3 | many"];
 const LOCALES: &[&str] = &["en", "es_ES", "en_gb", "DE", "pt_BR"];
 const BAD_LOCALES: &[&str] = &["english", "e", "en-GB", "en_GBR", "e1", "en_", "_GB", "ça", "en_G1"];
